@@ -146,7 +146,10 @@ func c04Compare(c *Case, resp *Response, exp c04Expect) []Violation {
 	}
 	for _, e := range resp.Result {
 		id := e.Alternative.ID
-		v, _ := e.Evaluation["value"].(float64)
+		v, isNum := e.Evaluation["value"].(float64)
+		if !isNum {
+			vs = append(vs, viol(c, "C04/value-not-reported", "alternative %s: the evaluation %v carries no numeric value", id, e.Evaluation))
+		}
 		if ev, ok := exp.value[id]; ok && v != ev {
 			vs = append(vs, viol(c, "C04/value", "alternative %s reports value %v, expected rounded utility %v", id, v, ev))
 		}
